@@ -115,13 +115,13 @@ def run(cx):
 
         def extra(a, bb, subj, labels, o):
             lab = "|".join(sorted(labels))
+            jt = join_error_test(subj, labels)
+            if jt is not None:
+                return jt[0] + "=" + str(jt[1]).lower()
             if subj[0] == "discr":
                 r = strip_identity(subj[1])
                 if r[0] in ("field", "variant") and any(x[0] == "variant" for x in walk(r)):
                     return "[" + lab + "]"
-            s = strip_identity(subj)
-            if s[0] == "call" and name_matches(s[1], ("JoinError::is_cancelled", "JoinError::is_panic")):
-                return s[1].split("::")[-1] + "=" + lab
             return None
         kinds = {"Interval::tick": "tick", "Receiver::recv": "mailbox", "endpoint::Accept": "accept", "JoinSet::join_next": "join"}
         n_join = 0
@@ -495,6 +495,10 @@ def run(cx):
                 ob.matched += 1      # debug_assert_eq!(peer_id, returned_peer_id): discharged by C03 (pinned dial returns the pinned id)
                 continue
             a = allow.get(k)
+            if a is None and static_bounds_ok(s, b):
+                ob.evals += 1
+                ob.matched += 1
+                continue
             if a is None:
                 ob.fail("refuted", f"panic/unlisted/{k}", f"panic-capable construct `{s['what']}` in {s['body']} (via {s['via']}) is not justified in the inventory", s["body"], b.loc(s["bb"]))
                 continue
